@@ -179,7 +179,13 @@ func (t *c12Table) class(a string) string {
 
 // ---------------------------------------------------------------- the machine under test
 
-var c12Names = am.S{"A", "B", "C", "D", am.StateException}
+// A..D are the states the calls pick from; E, F, G give the relation shape on
+// which re-sorting the active list is not a no-op (E requires F, G after F:
+// sortRequire pulls G to the front, the After pass pushes it back), so that an
+// in-place sort of a slice that aliases the live active states WRITES
+var c12Names = am.S{"A", "B", "C", "D", am.StateException, "E", "F", "G"}
+var c12NamesNM = am.S{"A", "B", "C", "D", "E", "F", "G"}
+var c12Rel = am.S{"F", "G"}
 
 func c12Schema() am.Schema {
 	return am.Schema{
@@ -187,6 +193,9 @@ func c12Schema() am.Schema {
 		"B": {},
 		"C": {Multi: true},
 		"D": {Add: am.S{"B"}},
+		"E": {Require: am.S{"F"}},
+		"F": {},
+		"G": {After: am.S{"F"}},
 	}
 }
 
@@ -241,7 +250,7 @@ func c12Setup(in *C12Input) *c12Env {
 		env.logOK = true
 	}
 	if in.Kind == "netmach" {
-		nm, nmi, err := arpc.NewNetworkMachine(env.ctx, "c12nm", nil, c12Schema(), c12Names[:4], m, nil, false)
+		nm, nmi, err := arpc.NewNetworkMachine(env.ctx, "c12nm", nil, c12Schema(), c12NamesNM, m, nil, false)
 		must(err)
 		env.nm, env.nmi = nm, nmi
 		if in.Log > 0 {
@@ -314,6 +323,18 @@ var c12Ops = map[string]c12Op{
 	"Add1":          func(e *c12Env, t *c12T) { e.m.Add1(c12St(t.r), nil) },
 	"Remove":        func(e *c12Env, t *c12T) { e.m.Remove(c12Sts(t.r), nil) },
 	"Remove1":       func(e *c12Env, t *c12T) { e.m.Remove1(c12Names[t.r.Intn(5)], nil) },
+	// transitions that leave NO state active, from an active list (F, G, ...)
+	// on which SortStates swaps elements
+	"Remove.all": func(e *c12Env, t *c12T) {
+		e.m.Add(c12Rel, nil)
+		if act := e.m.ActiveStates(nil); len(act) > 0 {
+			e.m.Remove(act, nil)
+		}
+	},
+	"Set.none": func(e *c12Env, t *c12T) {
+		e.m.Add(c12Rel, nil)
+		e.m.Set(am.S{}, nil)
+	},
 	"Set":           func(e *c12Env, t *c12T) { e.m.Set(c12Sts(t.r), nil) },
 	"Toggle":        func(e *c12Env, t *c12T) { e.m.Toggle(c12Sts(t.r), nil) },
 	"Toggle1":       func(e *c12Env, t *c12T) { e.m.Toggle1(c12St(t.r), nil) },
@@ -580,7 +601,7 @@ var c12Ops = map[string]c12Op{
 	// ---- NetworkMachine
 	"NM.UpdateClock": func(e *c12Env, t *c12T) {
 		k := e.nmTime.Add(1)
-		now := am.Time{k, k / 2, k / 3, 2 * k}
+		now := am.Time{k, k / 2, k / 3, 2 * k, k / 5, k / 2, k / 3}
 		e.nmi.Lock()
 		e.nmi.UpdateClock(now, k, 0)
 	},
@@ -664,6 +685,17 @@ func c12BindTr(e *c12Env, t *c12T, bind func(am.Tracer) (string, error)) {
 	if id, err := bind(tr); err == nil && id != "" {
 		t.tids = append(t.tids, id)
 	}
+}
+
+// "Remove.all" is a second driver (argument class) of the method Remove
+func c12Base(n string) string {
+	if strings.HasPrefix(n, "NM.") || strings.HasPrefix(n, "SemLogger.") {
+		return n
+	}
+	if k := strings.Index(n, "."); k > 0 {
+		return n[:k]
+	}
+	return n
 }
 
 // methods that exist but are deliberately not part of the table
@@ -943,7 +975,7 @@ func c12FuncBounds(f c12Frame) (lo, hi int, exact bool) {
 	return 0, 0, false
 }
 
-// fields named anywhere in the function enclosing the innermost repo frame
+// fields named anywhere in the functions of the three innermost repo frames
 func (t *c12Table) funcFields(frames []c12Frame) map[int]bool {
 	fields := map[int]bool{}
 	depth := 0
@@ -978,7 +1010,9 @@ func (t *c12Table) funcFields(frames []c12Frame) map[int]bool {
 				}
 			}
 		}
-		if len(fields) > 0 || depth >= 4 {
+		// (the accessed field is often named a few frames up: helpers such as
+		// slices.Contains / sort are called with the field as an argument)
+		if depth >= 3 {
 			return fields
 		}
 	}
@@ -1221,7 +1255,7 @@ func runC12(c *Ctx) error {
 	var driven, drivenNM []string
 	for _, n := range tbl.Names {
 		inTable[n] = true
-		if !have[n] {
+		if !have[c12Base(n)] {
 			missing = append(missing, n)
 			continue
 		}
@@ -1320,6 +1354,26 @@ func runC12(c *Ctx) error {
 			}
 		}
 		genPairs("pair", driven)
+		{
+			seen := map[string]bool{}
+			for _, n := range driven {
+				fp := tbl.Foot[n]
+				_, a := fp[0]
+				_, b := fp[1]
+				k := tbl.class(n)
+				if !(a || b) || seen[k] || strings.Contains(n, ".all") || strings.Contains(n, ".none") {
+					continue
+				}
+				seen[k] = true
+				for _, sp := range []string{"Remove.all", "Set.none"} {
+					if _, ok := c12Ops[sp]; !ok || !tbl.conflict(sp, n) {
+						continue
+					}
+					add("pair", &C12Input{Kind: "pair", Warm: true, Threads: [][]string{{sp}, {n}},
+						Rounds: 2, DurMs: 6, Seed: r.U64() >> 1, Handlers: r.Chance(50)})
+				}
+			}
+		}
 		genPairs("netmach", drivenNM)
 
 		// ---- (b) mixes over the whole method set, transitions with handlers running
@@ -1334,7 +1388,8 @@ func runC12(c *Ctx) error {
 				return n
 			}
 		}
-		muts := []string{"Add", "Add1", "Remove", "Remove1", "Set", "Toggle1", "AddErr", "EvAdd1", "CanAdd1"}
+		muts := []string{"Add", "Add1", "Remove", "Remove1", "Set", "Toggle1", "AddErr", "EvAdd1", "CanAdd1",
+			"Remove.all", "Set.none"}
 		nMix := c.N(160, 4000)
 		for i := 0; i < nMix; i++ {
 			n := r.Range(2, 16)
